@@ -96,6 +96,7 @@ func c10Targets() []c10Target {
 				return viaTo(func(w io.Writer) error { return auto.RenderTo(t, w, "CSV") })
 			}},
 			{"auto.Wrap(t,csv.x.y).Render", func(t tabular.Table) (string, error) { return auto.Wrap(t, "csv.x.y").Render() }},
+			{"cp := *csv.Wrap(t); cp.Render() (a by-value copy of the wrapper does the rendering)", func(t tabular.Table) (string, error) { cp := *csv.Wrap(t); return cp.Render() }},
 			{c10StatusOnly + "csv.Wrap(t).RenderTo(io.Discard)", func(t tabular.Table) (string, error) { return intoDiscard(csv.Wrap(t).RenderTo) }},
 		}},
 		{"html", []c10Route{
@@ -106,6 +107,7 @@ func c10Targets() []c10Target {
 				return viaTo(func(w io.Writer) error { return auto.RenderTo(t, w, "Html") })
 			}},
 			{"auto.Wrap(t,html).RenderTo(w)", func(t tabular.Table) (string, error) { return viaTo(auto.Wrap(t, "html").RenderTo) }},
+			{"cp := *html.Wrap(t); cp.Render()", func(t tabular.Table) (string, error) { cp := *html.Wrap(t); return cp.Render() }},
 			{"(&html.HTMLTable{Table: t}).Render (composite literal)", func(t tabular.Table) (string, error) { return (&html.HTMLTable{Table: t}).Render() }},
 			{c10StatusOnly + "html.Wrap(t).RenderTo(io.Discard)", func(t tabular.Table) (string, error) { return intoDiscard(html.Wrap(t).RenderTo) }},
 		}},
@@ -118,6 +120,7 @@ func c10Targets() []c10Target {
 			{"json.Wrap(t).RenderTo(w)", func(t tabular.Table) (string, error) { return viaTo(json.Wrap(t).RenderTo) }},
 			{"auto.Render(t,json)", func(t tabular.Table) (string, error) { return auto.Render(t, "json") }},
 			{"auto.Wrap(t,JSON).RenderTo(w)", func(t tabular.Table) (string, error) { return viaTo(auto.Wrap(t, "JSON").RenderTo) }},
+			{"cp := *json.Wrap(t); cp.RenderTo(w)", func(t tabular.Table) (string, error) { cp := *json.Wrap(t); return viaTo(cp.RenderTo) }},
 			{"(&json.JSONTable{Table: t}).Render (composite literal)", func(t tabular.Table) (string, error) { return (&json.JSONTable{Table: t}).Render() }},
 			{c10StatusOnly + "json.RenderTo(t, io.Discard)", func(t tabular.Table) (string, error) {
 				return intoDiscard(func(w io.Writer) error { return json.RenderTo(t, w) })
@@ -132,6 +135,7 @@ func c10Targets() []c10Target {
 			{"markdown.Wrap(t).RenderTo(w)", func(t tabular.Table) (string, error) { return viaTo(markdown.Wrap(t).RenderTo) }},
 			{"auto.Render(t,markdown)", func(t tabular.Table) (string, error) { return auto.Render(t, "markdown") }},
 			{"auto.Wrap(t,Markdown.gfm).Render", func(t tabular.Table) (string, error) { return auto.Wrap(t, "Markdown.gfm").Render() }},
+			{"cp := *markdown.Wrap(t); cp.Render()", func(t tabular.Table) (string, error) { cp := *markdown.Wrap(t); return cp.Render() }},
 			{c10StatusOnly + "auto.RenderTo(t, io.Discard, markdown)", func(t tabular.Table) (string, error) {
 				return intoDiscard(func(w io.Writer) error { return auto.RenderTo(t, w, "markdown") })
 			}},
@@ -146,6 +150,14 @@ func c10Targets() []c10Target {
 		{"texttable.Wrap(t).RenderTo(w)", func(t tabular.Table) (string, error) { return viaTo(texttable.Wrap(t).RenderTo) }},
 		{"auto.Render(t,texttable)", func(t tabular.Table) (string, error) { return auto.Render(t, "texttable") }},
 		{"auto.Wrap(t,TextTable).RenderTo(w)", func(t tabular.Table) (string, error) { return viaTo(auto.Wrap(t, "TextTable").RenderTo) }},
+		{"cp := *texttable.Wrap(t); cp.Render()", func(t tabular.Table) (string, error) { cp := *texttable.Wrap(t); return cp.Render() }},
+		{"struct embedding texttable.TextTable by value, initialised from *texttable.Wrap(t), .RenderTo(w)", func(t tabular.Table) (string, error) {
+			app := struct {
+				texttable.TextTable
+				Note string
+			}{*texttable.Wrap(t), "application data"}
+			return viaTo(app.RenderTo)
+		}},
 		{c10StatusOnly + "texttable.Wrap(t).RenderTo(io.Discard)", func(t tabular.Table) (string, error) { return intoDiscard(texttable.Wrap(t).RenderTo) }},
 	}}
 	ts = append(ts, def)
